@@ -67,6 +67,19 @@ pub fn diff_case(_ctx: &Ctx, input: &Input, do_gc: bool) -> CaseResult {
             return Ok(out);
         }
     };
+    // a second emit of the same Module must behave like the first: when its
+    // bytes differ (C08's business) the second output is executed as well
+    let mut second: Option<Vec<u8>> = None;
+    if !do_gc {
+        let cfg = wal::Cfg::plain().to_config();
+        if let Ok(Ok(mut m)) = wal::parse(&bytes, &cfg) {
+            if let (Ok(_), Ok(b2)) = (wal::emit(&mut m), wal::emit(&mut m)) {
+                if b2 != emitted {
+                    second = Some(b2);
+                }
+            }
+        }
+    }
     if do_gc {
         // C06 also requires a valid module with the same exports
         if let Err(e) = validate_walrus(&emitted) {
@@ -129,6 +142,25 @@ pub fn diff_case(_ctx: &Ctx, input: &Input, do_gc: bool) -> CaseResult {
             ))
         }
     };
+    if let Some(b2) = &second {
+        match exec::observe(b2, &script, host_seed, true) {
+            Ok(s2) => {
+                if let Cmp::Differ { at, what, detail } = exec::compare_opts(&a, &s2, false) {
+                    return Err(Failure::new(
+                        format!("second-emit:behaviour-differs:{}", what),
+                        format!("the second emit of the same Module: step {}: {} [{}]", at, detail, origin),
+                    ));
+                }
+            }
+            Err(e) if e.starts_with("interpreter-panic") => {}
+            Err(e) => {
+                return Err(Failure::new(
+                    "second-emit:output-not-loadable",
+                    format!("the second emit of the same Module cannot be loaded: {} [{}]", e, origin),
+                ))
+            }
+        }
+    }
     match exec::compare_opts(&a, &b, do_gc) {
         Cmp::Same { steps, completed_calls, touched_state } => {
             out.label("compared:same");
